@@ -40,7 +40,11 @@ T_C07_FailedIsRecreated == IsPoll =>
 T_C07_QueueMeasured ==
    (obs.ev = "step" /\ obs.st.wstate[W0] \in {"Unavailable", "Available", "Restarting"}) =>
       Len(obs.st.chan[W0]) = obs.st.chanLen[W0]
-T_C07_NoneLost == (IsPoll /\ obs.st.wstate[W0] = "Available" /\ obs.st.scriptsEmpty) => obs.st.chanLen[W0] = 0
+\* (Worker.C07_NoneLostStep / C07_QueuedMeansOwed: a poll that ends Available with every service ready leaves nothing
+\* queued - or it has re-armed its own wake-up: the measured waker flag of the worker future)
+WOwed == Len(obs.st.wwoken) >= W0 /\ obs.st.wwoken[W0]
+T_C07_NoneLost == (IsPoll /\ obs.st.wstate[W0] = "Available" /\ obs.st.scriptsEmpty) => (obs.st.chanLen[W0] = 0 \/ WOwed)
+T_C07_QueuedMeansOwed == (obs.ev = "step" /\ obs.st.alive[W0] /\ obs.st.wstate[W0] = "Available" /\ obs.st.chanLen[W0] > 0) => WOwed
 \* C06 worker side
 ReplyNow == obs.replyNow[W0]
 T_C06w_TrueMeansIdle == (obs.ev = "step" /\ ReplyNow = "true") => obs.st.inprog[W0] = <<>>
@@ -72,7 +76,7 @@ StrictStep(r) ==
   /\ CASE r.ev = "reset" ->
             /\ ws' = "Unavailable" /\ status' = [k \in Svc |-> "Unavailable"] /\ rs' = [k \in Svc |-> <<>>]
             /\ fs' = [k \in Svc |-> <<>>] /\ rk' = 0 /\ cq' = <<>> /\ sq' = <<>> /\ live' = {} /\ since' = 0 /\ due' = FALSE
-            /\ waiting' = FALSE /\ replies' = <<>> /\ calls' = <<>> /\ called' = {} /\ lastCalled' = 0 /\ fifoOk' = TRUE
+            /\ waiting' = FALSE /\ replies' = <<>> /\ owed' = TRUE /\ calls' = <<>> /\ called' = {} /\ lastCalled' = 0 /\ fifoOk' = TRUE
             /\ created' = [k \in Svc |-> 0] /\ drained' = {} /\ nconn' = 0 /\ nnr' = 0 /\ ncp' = 0 /\ nstops' = 0
             /\ pe' = <<>> /\ act' = [n |-> "Init"]
        [] r.do = "PushReady" -> (IF r.arg.a = 1 THEN PushReady(r.arg.t + 1) ELSE PushAnswer(r.arg.t + 1, r.arg.a))
